@@ -153,6 +153,21 @@ func (vc *VC) Solve(cfg SolverCfg, stats *SolveStats, sem chan struct{}) {
 				case a == "unsat" && !o.Cover, a == "sat" && o.Cover:
 					o.Status, o.Solver, o.Secs = "proved", "z3-new", secs
 					stats.add("z3-new", secs)
+				case (a == "unknown" || a == "timeout" || a == "none") && !o.Cover:
+					// quantified assumptions can drown an easy goal: drop them (fewer
+					// assumptions: a proof of the relaxed query is a proof)
+					qfBody := stripQuantified(body)
+					file2 := file + ".qf.smt2"
+					os.WriteFile(file2, []byte(qfBody+oblQuery(o)+"\n(check-sat)\n"), 0o644)
+					sem <- struct{}{}
+					out2, secs2 := runSolver(context.Background(), solvers[0], cfg.BatchMs, file2, cfg.BatchMs+5000)
+					<-sem
+					os.Remove(file2)
+					if firstAnswer(out2) == "unsat" {
+						o.Status, o.Solver, o.Secs = "proved", "z3-new", secs+secs2
+						o.Out = "proved without the quantified assumptions"
+						stats.add("z3-new", secs+secs2)
+					}
 				case (a == "unknown" || a == "timeout") && o.Cover:
 					// reachability could not be established because of quantifiers:
 					// retry without the quantified assertions (a weaker guard, but a
